@@ -1,3 +1,3 @@
--- This module serves as the root of the `Pdpy11` library.
--- Import modules here that should be built as part of the library.
-import Pdpy11.Basic
+-- root of the library: everything `lake build` must check
+import Pdpy11.Driver
+import Pdpy11.Props.C15
